@@ -50,6 +50,630 @@ def _install():
 
 _install()
 
+
+# ======================================================================================
+# Round 3: leaves *derived* from evaluate.py by a small source rewriter (as leaves/C18.py does).
+#
+# The decision points, loop bounds, default expressions and the assembly of the `Result` object
+# are not assignments of scalar expressions, so the shared translator cannot anchor them.  This
+# module reads the current source text (Python `ast`), cuts out the expression in question,
+# renames the array-valued sub-expressions to scalar parameters (`len(np.unique(pattern_idx))`
+# -> `n_unique_pattern`, `train[0].n_rdm` -> `train_n_rdm`, ...) and writes a tiny Python function
+# per leaf into harness/leaves/_C04_derived.py, which py2lean then translates as usual
+# (kind='func').  Every derivation fails closed: an anchor of unexpected shape yields a function
+# calling `__underivable__`, which py2lean reports as an untranslatable leaf = broken obligation.
+#
+# Encodings used by the derived functions (all results are naturals):
+#   * a test  t              ->  1 if t else 0
+#   * `None` / a count c     ->  0 / c + 1                 (the n_rdm / n_pattern handed to Result)
+#   * boot_type              ->  0 'both', 1 'rdm', 2 'pattern'   (order of Rsa.Eval.BootType)
+#   * cv_method string       ->  its position in CV_METHODS
+# ======================================================================================
+import os
+
+_E = 'inference/evaluate.py'
+SRC = os.environ.get('RSA_REPO_SRC', '/repo/src/rsatoolbox')
+HERE = os.path.dirname(os.path.abspath(__file__))
+DERIVED = os.path.join(HERE, '_C04_derived.py')
+
+CV_METHODS = ['fixed', 'bootstrap', 'bootstrap_pattern', 'bootstrap_rdm', 'crossvalidation',
+              'bootstrap_crossval', 'bootstrap_crossval_pattern', 'bootstrap_crossval_rdm',
+              'dual_bootstrap']
+BT_CODE = {'both': 0, 'rdm': 1, 'pattern': 2}
+
+
+class Underivable(Exception):
+    pass
+
+
+_TREES = {}
+
+
+def _func(path, name):
+    if path not in _TREES:
+        _TREES[path] = ast.parse(open(os.path.join(SRC, path)).read())
+    for node in ast.walk(_TREES[path]):
+        if isinstance(node, ast.FunctionDef) and node.name == name:
+            return node
+    raise Underivable(f'{path}: function {name} not found')
+
+
+class _Subst(ast.NodeTransformer):
+    """replace whole sub-expressions (matched by their unparsed text) by names"""
+
+    def __init__(self, subs):
+        self.subs = subs
+        self.used = set()
+
+    def visit(self, node):
+        if isinstance(node, ast.expr):
+            t = ast.unparse(node)
+            if t in self.subs:
+                self.used.add(t)
+                return ast.parse(self.subs[t], mode='eval').body
+        return self.generic_visit(node)
+
+
+def _subst(expr, subs, require=()):
+    tr = _Subst(subs)
+    new = tr.visit(ast.parse(ast.unparse(expr), mode='eval').body)
+    missing = [k for k in require if k not in tr.used]
+    if missing:
+        raise Underivable(f'sub-expression(s) {missing} not found in `{ast.unparse(expr)}`')
+    text = ast.unparse(ast.fix_missing_locations(new))
+    left = [n.id for n in ast.walk(ast.parse(text, mode='eval')) if isinstance(n, ast.Name)]
+    return text, set(left)
+
+
+def _only_names(names, allowed, what):
+    bad = sorted(set(names) - set(allowed))
+    if bad:
+        raise Underivable(f'{what}: unexpected name(s) {bad}')
+
+
+def _loops(fn):
+    return [n for n in ast.walk(fn) if isinstance(n, ast.For)]
+
+
+def _sample_loop(fn):
+    """the `for i[_sample] in tqdm.trange(N)` loop of an evaluator"""
+    hits = [n for n in fn.body if isinstance(n, ast.For) and isinstance(n.iter, ast.Call)
+            and ast.unparse(n.iter.func) in ('tqdm.trange', 'range', 'trange')
+            and isinstance(n.target, ast.Name) and n.target.id in ('i', 'i_sample')]
+    if len(hits) != 1:
+        raise Underivable(f'{fn.name}: expected one bootstrap loop, found {len(hits)}')
+    return hits[0]
+
+
+def _range_arg(loop, what):
+    if not (isinstance(loop.iter, ast.Call) and len(loop.iter.args) == 1 and not loop.iter.keywords):
+        raise Underivable(f'{what}: loop is not over range(<one argument>)')
+    return loop.iter.args[0]
+
+
+def _test01(test, subs, allowed, what, require=()):
+    text, names = _subst(test, subs, require)
+    _only_names(names, allowed, what)
+    return f'(1 if {text} else 0)'
+
+
+_UNIQ = {'len(np.unique(pattern_idx))': 'n_unique_pattern', 'len(np.unique(rdm_idx))': 'n_unique_rdm'}
+
+
+def _usable_test(fname):
+    """the first `if` of the bootstrap loop body that looks at the drawn indices"""
+    fn = _func(_E, fname)
+    loop = _sample_loop(fn)
+    ifs = [n for n in loop.body if isinstance(n, ast.If) and 'np.unique' in ast.unparse(n.test)]
+    if len(ifs) != 1:
+        raise Underivable(f'{fname}: expected one usable-sample test in the loop, found {len(ifs)}')
+    node = ifs[0]
+    # the evaluating branch must be the `if` body and the NaN branch the `else` body
+    body_txt = ' '.join(ast.unparse(b) for b in node.body)
+    else_txt = ' '.join(ast.unparse(b) for b in node.orelse)
+    if 'np.nan' in body_txt or 'np.nan' not in else_txt or 'evaluations[' not in else_txt:
+        raise Underivable(f'{fname}: the usable-sample test no longer has the form '
+                          '`if usable: evaluate else: evaluations[i] = nan`')
+    return node.test
+
+
+def _bool_name_to_test(test, name):
+    """`use_correction and n_cv > 1`: the bare boolean name becomes `name == 1`"""
+    class T(ast.NodeTransformer):
+        def visit_BoolOp(self, node):
+            node.values = [ast.parse(f'{name} == 1', mode='eval').body
+                           if isinstance(v, ast.Name) and v.id == name else self.visit(v)
+                           for v in node.values]
+            return node
+    return T().visit(ast.parse(ast.unparse(test), mode='eval').body)
+
+
+def _correction_test(fname):
+    fn = _func(_E, fname)
+    ifs = [n for n in fn.body if isinstance(n, ast.If) and 'use_correction' in ast.unparse(n.test)
+           and 'n_cv' in ast.unparse(n.test)]
+    if len(ifs) != 1:
+        raise Underivable(f'{fname}: expected one `use_correction and n_cv > 1` test, found {len(ifs)}')
+    node = ifs[0]
+    if not any('n_cv * var_mean' in ast.unparse(b) for b in node.body):
+        raise Underivable(f'{fname}: the corrected branch is not the `if` body')
+    if not any(isinstance(b, ast.If) and 'raise Warning' in ast.unparse(b) for b in node.orelse):
+        raise Underivable(f'{fname}: the uncorrected branch no longer raises for an invalid request')
+    return _bool_name_to_test(node.test, 'use_correction')
+
+
+# ---- the Result(...) call ---------------------------------------------------------------
+
+def _bt_of_test(test):
+    if isinstance(test, ast.Compare) and len(test.ops) == 1 and isinstance(test.ops[0], ast.Eq) \
+            and isinstance(test.left, ast.Name) and test.left.id == 'boot_type' \
+            and isinstance(test.comparators[0], ast.Constant) \
+            and test.comparators[0].value in BT_CODE:
+        return test.comparators[0].value
+    return None
+
+
+def _walk_env(stmts, env, bts, stop):
+    """symbolic execution of straight-line assignments of names, split by boot_type;
+    env[name][bt] = expression node or None (unknown).  Returns True when `stop` was reached."""
+    for s in stmts:
+        if s is stop:
+            return True
+        if isinstance(s, ast.Assign) and len(s.targets) == 1 and isinstance(s.targets[0], ast.Name):
+            env.setdefault(s.targets[0].id, {})
+            for bt in bts:
+                env[s.targets[0].id][bt] = s.value
+            if s.value is stop or any(n is stop for n in ast.walk(s.value)):
+                return True
+            continue
+        if isinstance(s, ast.If):
+            bt = _bt_of_test(s.test)
+            if bt is not None:
+                if bt in bts:
+                    if _walk_env(s.body, env, [bt], stop):
+                        return True
+                rest = [b for b in bts if b != bt]
+                if rest and _walk_env(s.orelse, env, rest, stop):
+                    return True
+                continue
+        # any other compound statement: names assigned inside become unknown
+        for n in ast.walk(s):
+            if n is stop:
+                raise Underivable('the Result(...) call is nested inside a compound statement')
+            if isinstance(n, ast.Assign):
+                for t in n.targets:
+                    for m in ast.walk(t):
+                        if isinstance(m, ast.Name) and isinstance(m.ctx, ast.Store):
+                            env.setdefault(m.id, {})
+                            for bt in bts:
+                                env[m.id][bt] = None
+    return False
+
+
+def _result_call(fname):
+    fn = _func(_E, fname)
+    calls = [n for n in ast.walk(fn) if isinstance(n, ast.Call) and ast.unparse(n.func) == 'Result']
+    if len(calls) != 1:
+        raise Underivable(f'{fname}: expected one Result(...) call, found {len(calls)}')
+    call = calls[0]
+    if [ast.unparse(a) for a in call.args] != ['models', 'evaluations']:
+        raise Underivable(f'{fname}: positional arguments of Result are not (models, evaluations)')
+    kw = {k.arg: k.value for k in call.keywords}
+    want = {'method': 'method', 'noise_ceiling': 'noise_ceil'}
+    if fname != 'crossval':
+        want.update(variances='variances', dof='dof')
+    for k, v in want.items():
+        if k not in kw or ast.unparse(kw[k]) != v:
+            raise Underivable(f'{fname}: Result(..., {k}=...) is not `{v}`')
+    if set(kw) - set(want) - {'cv_method', 'n_rdm', 'n_pattern'}:
+        raise Underivable(f'{fname}: unexpected keyword(s) in the Result call')
+    stmt = [s for s in fn.body if any(n is call for n in ast.walk(s))]
+    if len(stmt) != 1:
+        raise Underivable(f'{fname}: the Result call is not a top-level statement')
+    bts = list(BT_CODE)
+    env = {}
+    _walk_env(fn.body, env, bts, stmt[0])
+    after = fn.body[fn.body.index(stmt[0]) + 1:]
+    return fn, kw, env, after
+
+
+def _resolve(node, env, bt, depth=0):
+    if node is None:
+        raise Underivable('value depends on a conditional assignment')
+    if isinstance(node, ast.Name) and node.id in env and depth < 4:
+        return _resolve(env[node.id].get(bt), env, bt, depth + 1)
+    return node
+
+
+def _enc_count(node):
+    t = ast.unparse(node)
+    if t == 'None':
+        return '0'
+    if t == 'data.n_rdm':
+        return 'data_n_rdm + 1'
+    if t == 'data.n_cond':
+        return 'data_n_cond + 1'
+    raise Underivable(f'`{t}` is neither None, data.n_rdm nor data.n_cond')
+
+
+def _per_bt(fname, f):
+    """if-chain over the boot-type code"""
+    vals = {}
+    for bt, code in BT_CODE.items():
+        vals[code] = f(bt)
+    lines = [f'    if bt == {c}:\n        return {vals[c]}' for c in (0, 1)]
+    lines.append(f'    return {vals[2]}')
+    return '\n'.join(lines)
+
+
+def _res_cv_method(fname):
+    fn, kw, env, _ = _result_call(fname)
+
+    def one(bt):
+        node = _resolve(kw.get('cv_method'), env, bt) if 'cv_method' in kw else None
+        if not (isinstance(node, ast.Constant) and node.value in CV_METHODS):
+            raise Underivable(f'{fname}: cv_method is not one of the known strings')
+        return str(CV_METHODS.index(node.value))
+    return _per_bt(fname, one)
+
+
+def _res_n(fname, which, final):
+    fn, kw, env, after = _result_call(fname)
+    attr = {'n_rdm': 'result.n_rdm', 'n_pattern': 'result.n_pattern'}[which]
+
+    def one(bt):
+        node = _resolve(kw[which], env, bt) if which in kw else ast.Constant(value=None)
+        if final:
+            for s in after:
+                if isinstance(s, ast.Assign) and len(s.targets) == 1 \
+                        and ast.unparse(s.targets[0]) == attr:
+                    node = _resolve(s.value, env, bt)
+                elif not isinstance(s, ast.Return) and attr in ast.unparse(s):
+                    raise Underivable(f'{fname}: {attr} is modified in an unexpected way')
+        return _enc_count(node)
+    return _per_bt(fname, one)
+
+
+# ---- shapes ------------------------------------------------------------------------------
+
+_SHAPE_SUBS = {'len(models)': 'len_models', 'data.n_rdm': 'data_n_rdm', 'len(train_set)': 'len_train_set'}
+
+
+def _shape_tuple(fname, target, alloc=('np.zeros', 'np.empty')):
+    fn = _func(_E, fname) if fname != 'input_check_model' else _func('util/inference_util.py', fname)
+    hits = [n for n in ast.walk(fn) if isinstance(n, ast.Assign) and len(n.targets) == 1
+            and ast.unparse(n.targets[0]) == target and isinstance(n.value, ast.Call)
+            and ast.unparse(n.value.func) in alloc]
+    if fname == 'input_check_model':
+        hits = [h for h in hits if isinstance(h.value.args[0], ast.Tuple)]
+    if len(hits) != 1:
+        raise Underivable(f'{fname}: expected one allocation of {target}, found {len(hits)}')
+    arg = hits[0].value.args[0]
+    if not isinstance(arg, ast.Tuple):
+        raise Underivable(f'{fname}: {target} is not allocated with a shape tuple')
+    return arg.elts
+
+
+def _reshape_tuple(fname, target):
+    fn = _func(_E, fname)
+    hits = [n for n in ast.walk(fn) if isinstance(n, ast.Assign) and len(n.targets) == 1
+            and ast.unparse(n.targets[0]) == target and isinstance(n.value, ast.Call)
+            and ast.unparse(n.value.func) == f'{target}.reshape']
+    if len(hits) != 1:
+        raise Underivable(f'{fname}: expected one {target}.reshape, found {len(hits)}')
+    arg = hits[0].value.args[0]
+    if not isinstance(arg, ast.Tuple):
+        raise Underivable(f'{fname}: reshape argument is not a tuple')
+    return arg.elts
+
+
+def _shape_fn(elts, allowed, what):
+    lines = []
+    for i, e in enumerate(elts):
+        text, names = _subst(e, _SHAPE_SUBS)
+        _only_names(names, allowed, what)
+        lines.append(f'    if i == {i}:\n        return {text}')
+    lines.append('    return 0')
+    return '\n'.join(lines), len(elts)
+
+
+# ---- writing the derived module -----------------------------------------------------------
+
+_SPECS = []        # (lean name, python name, params)
+
+
+def _derive():
+    out = ['# DERIVED by harness/leaves/C04.py from the source tree under check - do not edit', '']
+
+    def emit(lean, name, params, body_fn, block=False):
+        try:
+            body = body_fn()
+            if isinstance(body, tuple):
+                body = body[0]
+        except Exception as exc:  # noqa: BLE001  (fail closed: any surprise = underivable)
+            body = '__underivable__(' + repr(str(exc)) + ')'
+            block = False
+        out.append(f'def {name}({", ".join(params)}):')
+        out.append(body if block and body.startswith('    ') else f'    return {body}')
+        out.append('')
+        _SPECS.append((lean, name, params))
+
+    # usable-sample tests
+    for lean, f in (('usableBootstrap', 'eval_bootstrap'), ('usableBootstrapPattern', 'eval_bootstrap_pattern')):
+        emit(lean, 'usable_' + f, ['n_unique_pattern'],
+             lambda f=f: _test01(_usable_test(f), _UNIQ, ['n_unique_pattern'], f,
+                                 ['len(np.unique(pattern_idx))']))
+    for lean, f in (('usableCv', 'bootstrap_crossval'), ('usableDual', 'eval_dual_bootstrap')):
+        emit(lean, 'usable_' + f, ['n_unique_rdm', 'n_unique_pattern', 'k_rdm', 'k_pattern'],
+             lambda f=f: _test01(_usable_test(f), _UNIQ,
+                                 ['n_unique_rdm', 'n_unique_pattern', 'k_rdm', 'k_pattern'], f,
+                                 list(_UNIQ)))
+    emit('usableRandom', 'usable_eval_dual_bootstrap_random',
+         ['n_unique_rdm', 'n_unique_pattern', 'n_rdm', 'n_pattern'],
+         lambda: _test01(_usable_test('eval_dual_bootstrap_random'), _UNIQ,
+                         ['n_unique_rdm', 'n_unique_pattern', 'n_rdm', 'n_pattern'], 'random',
+                         list(_UNIQ)))
+
+    # crossval: which folds are not evaluated
+    def fold_nan():
+        fn = _func(_E, 'crossval')
+        loops = [n for n in fn.body if isinstance(n, ast.For)]
+        if len(loops) != 1:
+            raise Underivable('crossval: expected one loop over the folds')
+        ifs = [n for n in loops[0].body if isinstance(n, ast.If)]
+        if len(ifs) != 1 or 'np.nan' not in ' '.join(ast.unparse(b) for b in ifs[0].body):
+            raise Underivable('crossval: the fold test is not `if too small: evals = nan`')
+        subs = {'train[0].n_rdm': 'train_n_rdm', 'test[0].n_rdm': 'test_n_rdm',
+                'train[0].n_cond': 'train_n_cond', 'test[0].n_cond': 'test_n_cond'}
+        return _test01(ifs[0].test, subs, list(subs.values()), 'crossval', list(subs))
+    emit('foldNan', 'fold_nan', ['train_n_rdm', 'test_n_rdm', 'train_n_cond', 'test_n_cond'], fold_nan)
+
+    # which noise-ceiling function a resample gets
+    def nc_dispatch(fname, params, first):
+        def go():
+            fn = _func(_E, fname)
+            ifs = [n for n in ast.walk(fn) if isinstance(n, ast.If)
+                   and any('cv_noise_ceiling' in ast.unparse(b) for b in n.body)
+                   and any('boot_noise_ceiling' in ast.unparse(b) for b in n.orelse)]
+            if len(ifs) != 1:
+                raise Underivable(f'{fname}: expected one cv/boot noise-ceiling dispatch, found {len(ifs)}')
+            return _test01(ifs[0].test, {}, params, fname)
+        return go
+    emit('ncDispatchCv', 'nc_dispatch_internal_cv', ['k_rdm', 'k_pattern'],
+         nc_dispatch('_internal_cv', ['k_rdm', 'k_pattern'], 'cv'))
+    emit('ncDispatchRandom', 'nc_dispatch_random', ['n_rdm', 'n_pattern'],
+         nc_dispatch('eval_dual_bootstrap_random', ['n_rdm', 'n_pattern'], 'cv'))
+
+    # eval_dual_bootstrap without any cross-validation
+    def dual_no_cv():
+        fn = _func(_E, 'eval_dual_bootstrap')
+        ifs = [n for n in fn.body if isinstance(n, ast.If)
+               and [ast.unparse(b) for b in n.body] == ['n_cv = 1', 'use_correction = False']]
+        if len(ifs) != 1 or ifs[0].orelse:
+            raise Underivable('eval_dual_bootstrap: `n_cv = 1; use_correction = False` block not found')
+        return _test01(ifs[0].test, {}, ['k_rdm', 'k_pattern'], 'dual')
+    emit('dualNoCv', 'dual_no_cv', ['k_rdm', 'k_pattern'], dual_no_cv)
+
+    # the n_cv correction switch
+    for lean, f in (('correctionOnCv', 'bootstrap_crossval'), ('correctionOnDual', 'eval_dual_bootstrap'),
+                    ('correctionOnRandom', 'eval_dual_bootstrap_random')):
+        emit(lean, 'correction_on_' + f, ['use_correction', 'n_cv'],
+             lambda f=f: _test01(_correction_test(f), {}, ['use_correction', 'n_cv'], f))
+
+    # eval_fixed: covariance only with more than one RDM
+    def fixed_has_cov():
+        fn = _func(_E, 'eval_fixed')
+        ifs = [n for n in fn.body if isinstance(n, ast.If)
+               and any(ast.unparse(b).startswith('variances = np.cov') for b in n.body)
+               and any(ast.unparse(b) == 'variances = None' for b in n.orelse)]
+        if len(ifs) != 1:
+            raise Underivable('eval_fixed: `if data.n_rdm > 1: variances = np.cov(...) else: None` not found')
+        return _test01(ifs[0].test, {'data.n_rdm': 'data_n_rdm'}, ['data_n_rdm'], 'eval_fixed',
+                       ['data.n_rdm'])
+    emit('fixedHasCov', 'fixed_has_cov', ['data_n_rdm'], fixed_has_cov)
+
+    # default numbers of folds: argument of default_k_*, the single-group exception
+    def k_arg(fname, var, callee):
+        def go():
+            fn = _func(_E, fname)
+            hits = [n for n in ast.walk(fn) if isinstance(n, ast.Call)
+                    and ast.unparse(n.func) == callee and len(n.args) == 1]
+            if len(hits) != 1:
+                raise Underivable(f'{fname}: expected one {callee}(...) call, found {len(hits)}')
+            text, names = _subst(hits[0].args[0], {'np.exp(1)': 'e'}, ['np.exp(1)'])
+            _only_names(names, ['e', var], fname)
+            # the argument must be the number of *distinct descriptor values*
+            src = [n for n in ast.walk(fn) if isinstance(n, ast.Assign) and len(n.targets) == 1
+                   and ast.unparse(n.targets[0]) == var]
+            desc = {'n_pattern': 'pattern', 'n_pattern_all': 'pattern', 'n_rdm': 'rdm',
+                    'n_rdm_all': 'rdm'}[var]
+            want = f'len(np.unique(data.{desc}_descriptors[{desc}_descriptor]))'
+            if not src or ast.unparse(src[0].value) != want:
+                raise Underivable(f'{fname}: {var} is not {want}')
+            return text.replace(var, 'n_groups')
+        return go
+    for lean, f, var, callee in (
+            ('kArgPatternCv', 'bootstrap_crossval', 'n_pattern', 'default_k_pattern'),
+            ('kArgRdmCv', 'bootstrap_crossval', 'n_rdm', 'default_k_rdm'),
+            ('kArgPatternDual', 'eval_dual_bootstrap', 'n_pattern', 'default_k_pattern'),
+            ('kArgRdmDual', 'eval_dual_bootstrap', 'n_rdm', 'default_k_rdm'),
+            ('kArgPatternRandom', 'eval_dual_bootstrap_random', 'n_pattern_all', 'default_k_pattern'),
+            ('kArgRdmRandom', 'eval_dual_bootstrap_random', 'n_rdm_all', 'default_k_rdm')):
+        emit(lean, 'k_arg_' + lean, ['e', 'n_groups'], k_arg(f, var, callee))
+
+    def k_rdm_single():
+        fn = _func(_E, 'bootstrap_crossval')
+        ifs = [n for n in ast.walk(fn) if isinstance(n, ast.If)
+               and [ast.unparse(b) for b in n.body] == ['k_rdm = 1']
+               and any('default_k_rdm' in ast.unparse(b) for b in n.orelse)]
+        if len(ifs) != 1:
+            raise Underivable('bootstrap_crossval: `if n_rdm == 1: k_rdm = 1 else default` not found')
+        return _test01(ifs[0].test, {'n_rdm': 'n_groups'}, ['n_groups'], 'bcv')
+    emit('kRdmSingle', 'k_rdm_single', ['n_groups'], k_rdm_single)
+
+    def random_n(var, allv, kvar):
+        def go():
+            fn = _func(_E, 'eval_dual_bootstrap_random')
+            hits = [n for n in ast.walk(fn) if isinstance(n, ast.Assign) and len(n.targets) == 1
+                    and ast.unparse(n.targets[0]) == var]
+            if len(hits) != 1:
+                raise Underivable(f'random: expected one assignment to {var}')
+            text, names = _subst(hits[0].value, {allv: 'n_groups', kvar: 'k'}, [allv, kvar])
+            _only_names(names, ['n_groups', 'k', 'int', 'np'], 'random')
+            return text
+        return go
+    emit('randomNPattern', 'random_n_pattern', ['n_groups', 'k'],
+         random_n('n_pattern', 'n_pattern_all', 'k_pattern'))
+    emit('randomNRdm', 'random_n_rdm', ['n_groups', 'k'], random_n('n_rdm', 'n_rdm_all', 'k_rdm'))
+
+    # loop bounds
+    for lean, f in (('samplesBootstrap', 'eval_bootstrap'), ('samplesBootstrapPattern', 'eval_bootstrap_pattern'),
+                    ('samplesBootstrapRdm', 'eval_bootstrap_rdm'), ('samplesCv', 'bootstrap_crossval'),
+                    ('samplesDual', 'eval_dual_bootstrap'), ('samplesRandom', 'eval_dual_bootstrap_random')):
+        def go(f=f):
+            text, names = _subst(_range_arg(_sample_loop(_func(_E, f)), f), {})
+            _only_names(names, ['N'], f)
+            return text
+        emit(lean, 'samples_' + f, ['N'], go)
+    for lean, f in (('repsCv', 'bootstrap_crossval'), ('repsDual', 'eval_dual_bootstrap')):
+        def go(f=f):
+            loops = [n for n in _loops(_func(_E, f)) if isinstance(n.target, ast.Name)
+                     and n.target.id == 'i_rep']
+            if len(loops) != 1:
+                raise Underivable(f'{f}: expected one repetition loop')
+            text, names = _subst(_range_arg(loops[0], f), {})
+            _only_names(names, ['n_cv'], f)
+            return text
+        emit(lean, 'reps_' + f, ['n_cv'], go)
+    for lean, f in (('var1RepsCv', 'bootstrap_crossval'), ('var1RepsRandom', 'eval_dual_bootstrap_random')):
+        def go(f=f):
+            loops = [n for n in _loops(_func(_E, f)) if isinstance(n.target, ast.Name)
+                     and n.target.id == 'i' and 'var_1.append' in ast.unparse(n)]
+            if len(loops) != 1:
+                raise Underivable(f'{f}: expected one var_1 loop')
+            text, names = _subst(_range_arg(loops[0], f), {})
+            _only_names(names, ['n_cv'], f)
+            return text
+        emit(lean, 'var1_reps_' + f, ['n_cv'], go)
+
+    # the Result(...) call of every evaluator
+    for tag, f in (('Fixed', 'eval_fixed'), ('Bootstrap', 'eval_bootstrap'),
+                   ('BootstrapPattern', 'eval_bootstrap_pattern'), ('BootstrapRdm', 'eval_bootstrap_rdm'),
+                   ('Crossval', 'crossval'), ('Cv', 'bootstrap_crossval'), ('Dual', 'eval_dual_bootstrap'),
+                   ('Random', 'eval_dual_bootstrap_random')):
+        emit('resCvMethod' + tag, 'res_cv_method_' + f, ['bt'], lambda f=f: _res_cv_method(f), block=True)
+        for which, w in (('n_rdm', 'NRdm'), ('n_pattern', 'NPattern')):
+            emit('resPassed' + w + tag, f'res_passed_{which}_{f}', ['bt', 'data_n_rdm', 'data_n_cond'],
+                 lambda f=f, which=which: _res_n(f, which, False), block=True)
+            emit('resAttr' + w + tag, f'res_attr_{which}_{f}', ['bt', 'data_n_rdm', 'data_n_cond'],
+                 lambda f=f, which=which: _res_n(f, which, True), block=True)
+
+    # shapes of the stored arrays
+    shp = ['i', 'N', 'len_models', 'k_pattern', 'k_rdm', 'n_cv']
+    for tag, f, target, getter in (
+            ('EvalsCv', 'bootstrap_crossval', 'evaluations', _shape_tuple),
+            ('NcCv', 'bootstrap_crossval', 'noise_ceil', _shape_tuple),
+            ('EvalsDual', 'eval_dual_bootstrap', 'evaluations', _shape_tuple),
+            ('NcDual', 'eval_dual_bootstrap', 'noise_ceil', _shape_tuple),
+            ('EvalsRandom', 'eval_dual_bootstrap_random', 'evaluations', _shape_tuple),
+            ('NcRandom', 'eval_dual_bootstrap_random', 'noise_ceil', _shape_tuple),
+            ('EvalsInputCheck', 'input_check_model', 'evaluations', _shape_tuple)):
+        holder = {}
+
+        def body(f=f, target=target, getter=getter, holder=holder):
+            text, n = _shape_fn(getter(f, target), shp[1:], f)
+            holder['n'] = n
+            return text
+        emit('shape' + tag, f'shape_{target}_{f}', shp, body, block=True)
+        emit('ndim' + tag, f'ndim_{target}_{f}', [],
+             lambda holder=holder: str(holder['n']) if 'n' in holder else 1 / 0)
+    for tag, f in (('EvalsFixed', 'eval_fixed'), ('EvalsCrossval', 'crossval')):
+        holder = {}
+
+        def body(f=f, holder=holder):
+            text, n = _shape_fn(_reshape_tuple(f, 'evaluations'),
+                                ['len_models', 'data_n_rdm', 'len_train_set'], f)
+            holder['n'] = n
+            return text
+        emit('shape' + tag, f'shape_evaluations_{f}', ['i', 'len_models', 'data_n_rdm', 'len_train_set'],
+             body, block=True)
+        emit('ndim' + tag, f'ndim_evaluations_{f}', [],
+             lambda holder=holder: str(holder['n']) if 'n' in holder else 1 / 0)
+
+    # which object and which RDM descriptor every boot_noise_ceiling call of an evaluator uses:
+    # site code = 2 * object + descriptor; object 0 = the whole data, 1 = the resample, 2 = the data
+    # restricted to the fold's test conditions; descriptor 0 = 'index' (literal or default),
+    # 1 = the caller's rdm_descriptor; 9 = no such call
+    def nc_sites(fname):
+        def go():
+            fn = _func(_E, fname)
+            calls = sorted((n for n in ast.walk(fn) if isinstance(n, ast.Call)
+                            and ast.unparse(n.func) == 'boot_noise_ceiling'),
+                           key=lambda n: (n.lineno, n.col_offset))
+            lines = []
+            for i, c in enumerate(calls):
+                if len(c.args) != 1:
+                    raise Underivable(f'{fname}: boot_noise_ceiling call {i} has not one positional argument')
+                a = ast.unparse(c.args[0])
+                obj = {'data': 0, 'sample': 1,
+                       'rdms.subsample_pattern(by=pattern_descriptor, value=test[1])': 2}.get(a)
+                if obj is None:
+                    raise Underivable(f'{fname}: boot_noise_ceiling on unexpected object `{a}`')
+                kw = {k.arg: ast.unparse(k.value) for k in c.keywords}
+                if kw.get('method') != 'method' or set(kw) - {'method', 'rdm_descriptor'}:
+                    raise Underivable(f'{fname}: unexpected keywords in boot_noise_ceiling call {i}')
+                desc = {None: 0, "'index'": 0, 'rdm_descriptor': 1}.get(kw.get('rdm_descriptor'), None)
+                if desc is None:
+                    raise Underivable(f'{fname}: rdm_descriptor={kw.get("rdm_descriptor")}')
+                lines.append(f'    if i == {i}:\n        return {2 * obj + desc}')
+            cvs = [n for n in ast.walk(fn) if isinstance(n, ast.Call)
+                   and ast.unparse(n.func) == 'cv_noise_ceiling']
+            for c in cvs:
+                t = ast.unparse(c)
+                if t not in ('cv_noise_ceiling(sample, ceil_set, test_set, method=method, '
+                             'pattern_descriptor=pattern_descriptor)',
+                             'cv_noise_ceiling(rdms, ceil_set, test_set, method=method, '
+                             'pattern_descriptor=pattern_descriptor)'):
+                    raise Underivable(f'{fname}: unexpected cv_noise_ceiling call `{t}`')
+            lines.append('    return 9')
+            return '\n'.join(lines)
+        return go
+    for tag, f in (('Fixed', 'eval_fixed'), ('Bootstrap', 'eval_bootstrap'),
+                   ('BootstrapPattern', 'eval_bootstrap_pattern'), ('BootstrapRdm', 'eval_bootstrap_rdm'),
+                   ('Crossval', 'crossval'), ('InternalCv', '_internal_cv'),
+                   ('Random', 'eval_dual_bootstrap_random')):
+        emit('ncSite' + tag, 'nc_site_' + f, ['i'], nc_sites(f), block=True)
+
+    # the helper every dof expression goes through: number of *distinct descriptor values*
+    def n_groups_def():
+        fn = _func(_E, '_n_groups')
+        body = [b for b in fn.body if not (isinstance(b, ast.Expr) and isinstance(b.value, ast.Constant))]
+        if [a.arg for a in fn.args.args] != ['descriptors', 'descriptor'] or len(body) != 1 \
+                or not isinstance(body[0], ast.Return) \
+                or ast.unparse(body[0].value) != 'len(np.unique(descriptors[descriptor]))':
+            raise Underivable('_n_groups is no longer `len(np.unique(descriptors[descriptor]))`')
+        return 'n_unique'
+    emit('nGroups', 'n_groups', ['n_unique'], n_groups_def)
+
+    def input_check_2d():
+        fn = _func('util/inference_util.py', 'input_check_model')
+        ifs = [n for n in fn.body if isinstance(n, ast.If)
+               and any(ast.unparse(b).startswith('evaluations = np.zeros((') for b in n.body)
+               and any(ast.unparse(b) == 'evaluations = np.zeros(len(models))' for b in n.orelse)]
+        if len(ifs) != 1:
+            raise Underivable('input_check_model: `if N > 1: zeros((N, M)) else zeros(M)` not found')
+        return _test01(ifs[0].test, {}, ['N'], 'input_check_model')
+    emit('inputCheck2d', 'input_check_2d', ['N'], input_check_2d)
+
+    text = '\n'.join(out)
+    if not (os.path.exists(DERIVED) and open(DERIVED).read() == text):
+        with open(DERIVED + '.tmp', 'w') as f:
+            f.write(text)
+        os.replace(DERIVED + '.tmp', DERIVED)
+
+
+_derive()
+
 _E = 'inference/evaluate.py'
 _G = {'groups_rdm': 'Int', 'groups_pattern': 'Int'}
 
@@ -88,3 +712,10 @@ LEAVES = [
     _corr('cvCorrectionDual', 'eval_dual_bootstrap'),
     _corr('cvCorrectionRandom', 'eval_dual_bootstrap_random'),
 ]
+
+
+_A_PARAMS = {'e': 'A'}
+for _lean, _py, _params in _SPECS:
+    _ret = 'A' if _lean.startswith('kArg') else 'Nat'
+    LEAVES.append(dict(name=_lean, file=DERIVED, func=_py, kind='func',
+                       params={p: _A_PARAMS.get(p, 'Nat') for p in _params}, ret=_ret))
